@@ -4,9 +4,8 @@
      * the loop body catches (KeyError, JobsCorruptedError, ValueError) around lookup / move / open_job: a job
        that cannot be looked up is recorded as corrupted and the loop CONTINUES;
      * the lookup is done with validate=False; its result is no longer stored in _sp_cache;
-     * a decodable non-mapping (1, [], "s") is treated like the state point of a misnamed directory: the
-       directory is renamed to the hash of that value, init then fails; for null open_job(None) raises the
-       ValueError that is now caught (after the rename). *)
+     * a decodable value that is not a mapping (1, [], "s", null) is reported as corrupted and the directory
+       is left where it is (fix: 353a4b6; before, it was renamed to the hash of that value). *)
 From SV Require Import Base Json MD5 Canon FS Ws Cache.
 
 Inductive ck := CkOk | CkCorrupt (ids : list str) | CkExn (e : exn).
@@ -80,15 +79,15 @@ Section REPAIR.
         match get_statepoint f s false i with
         | (s1, Err _) => repair_loop f s1 rest (corrupted ++ [i])      (* KeyError / JobsCorruptedError: caught *)
         | (s1, Ok sp) =>
+            if negb (is_objb sp) then
+              (* "if not isinstance(statepoint, Mapping): raise JobsCorruptedError" (353a4b6): reported, NOT moved *)
+              repair_loop f s1 rest (corrupted ++ [i])
+            else
             match relocate f i (cid sp) with
             | None => repair_loop f s1 rest (corrupted ++ [i])    (* "Unable to fix location": continue *)
             | Some f1 =>
-                match sp with
-                | JNull => repair_loop f1 s1 rest (corrupted ++ [i])   (* open_job(None): ValueError, caught *)
-                | _ =>
-                    let '(f2, s2, ok) := reinit f1 s1 sp in
-                    repair_loop f2 s2 rest (if ok then corrupted else corrupted ++ [i])
-                end
+                let '(f2, s2, ok) := reinit f1 s1 sp in
+                repair_loop f2 s2 rest (if ok then corrupted else corrupted ++ [i])
             end
         end
     end.
